@@ -54,6 +54,9 @@ def regenerate():
         if c14_names.enc(name) != int(z):
             raise c14_ctors.Untranslatable("Types.v: k_%s is not enc(%r)" % (name, name))
     ocode, opairs = c14_ctors.translate_overrides()
+    scode, srows = c14_ctors.translate_shapes()
+    ocode += scode
+    meta["method_shapes"] = srows
     p = os.path.join(gen, "Overrides.v")
     if not os.path.exists(p) or open(p).read() != ocode:
         open(p, "w").write(ocode)
